@@ -214,7 +214,8 @@ class ProtocolModel:
         ev = it.emit("CKPT", node, **data)
         if faults:
             opts = ["ok", BTE_FQ]
-            if data["action"] != "EMPTY":
+            if data["action"] != "EMPTY" and data.get("parent_id") != "None":
+                # only an operation that has a parent context can be orphaned
                 opts.append(ORPHAN_FQ)
             c = it.decide(f"CKPT#{n} outcome", len(opts), [short(o) for o in opts])
             ev.data["outcome"] = short(opts[c])
@@ -319,6 +320,10 @@ class ProtocolModel:
                         kwargs[p.arg] = Sym(p.arg, parse_annotation(self.prog, init.module, p.annotation))
             if ctor_overrides:
                 kwargs.update(ctor_overrides(it))
+            if status != "SUCCEEDED":
+                # model assumption: the ReplayChildren flag is only ever written by a SUCCEED record,
+                # so an operation found in any other status does not carry it
+                it.memo["truthy(op@0.0.context_details.replay_children)"] = 1
             try:
                 executor = it.construct(ci, [], kwargs, None)
                 executor.label = "executor"
@@ -480,3 +485,165 @@ def context_method_traces(pm: ProtocolModel) -> dict[str, list[Trace]]:
 
         out[name] = pm.run_function(fn, self_factory, kw_factory, cell=("DurableContext", name), extra_hooks=extra)
     return out
+
+
+# ---------------------------------------------------------------------------
+# wrapper model: durable_execution.<locals>.wrapper with user_future.result() enumerated
+# ---------------------------------------------------------------------------
+def wrapper_result_outcomes(prog: Program) -> list[str]:
+    """Every exception class of the SDK lattice + the builtin roots the wrapper distinguishes."""
+    out = ["return"]
+    for c in sorted(prog.exception_classes(), key=lambda c: c.fq):
+        out.append(c.fq)
+    out += ["builtins.Exception*", "builtins.BaseException*"]
+    return out
+
+
+def wrapper_traces(pm: ProtocolModel, *, faults: bool = True, event_mode: str = "client", outcomes=None) -> list[Trace]:
+    """event_mode 'client': the event is a DurableExecutionInvocationInputWithClient (test-framework path);
+    'dict': the raw Lambda event dictionary (production path)."""
+    prog = pm.prog
+    wrapper = prog.func("execution", "durable_execution.<locals>.wrapper")
+    outer = prog.func("execution", "durable_execution")
+    outcomes = list(outcomes) if outcomes else wrapper_result_outcomes(prog)
+
+    def hook_result(it, recv, args, kwargs, node):
+        if not (isinstance(recv, Sym) and ".submit()" in recv.k):
+            return NotImplemented
+        n = sum(1 for e in it.events if e.kind == "RESULT") + 1
+        ev = it.emit("RESULT", node, future=recv.k, n=n)
+        c = it.decide(f"future.result()#{n} outcome", len(outcomes), [short(o) for o in outcomes])
+        ev.data["outcome"] = outcomes[c]
+        if c == 0:
+            return Sym(f"handler_result#{n}")
+        raise _Raise(it.make_exc(outcomes[c], f"handler#{n}"), it.site(node))
+
+    def hook_dumps(it, args, kwargs, node):
+        n = sum(1 for e in it.events if e.kind == "DUMPS") + 1
+        ev = it.emit("DUMPS", node, src=args[0].key() if args else "?", n=n)
+        # only a user-supplied value can be non-serialisable; SDK-built dicts of strings cannot
+        user_value = bool(args) and isinstance(args[0], Sym) and args[0].k.startswith("handler_result")
+        opts = ["ok", "builtins.TypeError", "builtins.ValueError"] if user_value else ["ok"]
+        c = it.decide(f"json.dumps#{n} outcome", len(opts), opts)
+        ev.data["outcome"] = opts[c]
+        if c:
+            raise _Raise(it.make_exc(opts[c], f"json.dumps#{n}"), it.site(node))
+        return Sym(f"json.dumps#{n}({args[0].key() if args else '?'})", TypeRef(prim="str"), parts=("DUMPS", args[0] if args else NONE))
+
+    def hook_fetch(it, fn, sv, a, k, n):
+        it.emit("FETCH", n, args=[x.key() for x in a])
+        return NONE
+
+    def hook_payload(it, fn, sv, a, k, n):
+        return Sym("input_payload", TypeRef(prim="str", optional=True))
+
+    extra = {
+        prog.func("state", "ExecutionState.fetch_paginated_operations").fq: hook_fetch,
+        prog.func("execution", "InitialExecutionState.get_input_payload").fq: hook_payload,
+    }
+
+    cfg = pm.make_config(faults=faults, user_raises={}, extra_hooks=extra)
+    cfg.ext_method_hooks = {"result": hook_result}
+    cfg.ext_calls["json.dumps"] = hook_dumps
+    cfg.ext_calls["json.loads"] = lambda it, a, k, n: Sym("json.loads()", None)
+
+    def run(ch: Chooser) -> Trace:
+        from .interp import Frame
+
+        it = Interp(prog, ch, cfg)
+        it.site_stack.append("<driver>")
+        closure = Frame(outer, outer.module, {"func": UserFn("handler"), "boto3_client": NONE})
+        try:
+            if event_mode == "client":
+                ev_cls = prog.cls("execution", "DurableExecutionInvocationInputWithClient")
+                event: V = Sym("event", TypeRef(classes=(ev_cls.fq,)))
+            else:
+                event = DictVal()
+                event.open = True
+            v = it.call_function(wrapper, None, [], {"event": event, "context": Sym("lambda_context")}, closure, None, None)
+            return Trace(("wrapper", ""), it.events, "return", v, pc=it.pc, notes=it.notes)
+        except _Raise as r:
+            return Trace(("wrapper", ""), it.events, "raise", r.exc, r.origin, r.site, pc=it.pc, notes=it.notes)
+
+    return enumerate_paths(run, max_paths=200000)
+
+
+# ---------------------------------------------------------------------------
+# producer model: ExecutionState.create_checkpoint interpreted on a really constructed state
+# ---------------------------------------------------------------------------
+def completion_event_hooks(prog: Program) -> dict:
+    ce = prog.cls("threading", "CompletionEvent")
+
+    def key(sv):
+        return sv.key() if not isinstance(sv, Obj) else (sv.label or f"CompletionEvent#{sv.oid}")
+
+    def h_is_set(it, fn, sv, a, k, n):
+        r = it.decide_bool(f"is_set({key(sv)})")
+        it.emit("EV_ISSET", n, ev=key(sv), result=r, oid=getattr(sv, "oid", None))
+        return Const(r)
+
+    def h_wait(it, fn, sv, a, k, n):
+        bounded = bool(a) or "timeout" in k
+        it.emit("EV_WAIT", n, ev=key(sv), bounded=bounded, oid=getattr(sv, "oid", None))
+        if it.memo.get(f"is_set({key(sv)})") == 0:
+            # an event that was seen set carries the stored error (the flag is only ever set with one)
+            raise _Raise(it.make_exc(BTE_FQ, f"wait({key(sv)})"), it.site(n))
+        c = it.decide(f"wait({key(sv)}) outcome", 2, ["released", "BackgroundThreadError"])
+        if c:
+            raise _Raise(it.make_exc(BTE_FQ, f"wait({key(sv)})"), it.site(n))
+        return Const(True)
+
+    def h_set(it, fn, sv, a, k, n):
+        arg = a[0] if a else k.get("error", NONE)
+        it.emit("EV_SET", n, ev=key(sv), error=arg.key(), oid=getattr(sv, "oid", None))
+        return NONE
+
+    return {ce.methods["is_set"].fq: h_is_set, ce.methods["wait"].fq: h_wait, ce.methods["set"].fq: h_set}
+
+
+def make_real_state(it: Interp, prog: Program) -> Obj:
+    """ExecutionState built by interpreting its own __init__ (queues, events, locks become keyed symbols)."""
+    sc = prog.cls("state", "ExecutionState")
+    init = sc.methods["__init__"]
+    kwargs = {}
+    for p in init.node.args.args[1:]:
+        kwargs[p.arg] = Sym(f"init.{p.arg}", parse_annotation(prog, init.module, p.annotation))
+    kwargs["batcher_config"] = NONE
+    obj = Obj(sc, label="state")
+    it.call_function(init, obj, [], kwargs, None, None, None)
+    # give keyed names to the stdlib objects created in __init__
+    for attr, v in list(obj.fields.items()):
+        if isinstance(v, Sym) and v.parts and v.parts[0] == "EXTCALL":
+            obj.fields[attr] = Sym(f"state.{attr}", v.typ, parts=v.parts)
+    return obj
+
+
+def create_checkpoint_traces(pm: ProtocolModel) -> list[Trace]:
+    prog = pm.prog
+    fn = pm.ckpt_fn
+    hooks = completion_event_hooks(prog)
+
+    def h_mark(it, f, sv, a, k, n):
+        it.emit("MARK_ORPHANS", n, root=(a[0].key() if a else "?"))
+        return NONE
+
+    hooks[prog.func("state", "ExecutionState._mark_orphans").fq] = h_mark
+    cfg = pm.make_config(faults=False, user_raises={}, extra_hooks=hooks)
+    del cfg.hooks[fn.fq]  # interpret create_checkpoint itself
+
+    def run(ch: Chooser) -> Trace:
+        it = Interp(prog, ch, cfg)
+        it.site_stack.append("<driver>")
+        try:
+            state = make_real_state(it, prog)
+            it.events.clear()
+            upd_cls = pm.update_cls
+            mode = it.decide("operation_update", 2, ["update", "empty"])
+            upd: V = Sym("update", TypeRef(classes=(upd_cls.fq,))) if mode == 0 else NONE
+            sync = Const(it.decide("is_sync", 2, [True, False]) == 0)
+            v = it.call_function(fn, state, [], {"operation_update": upd, "is_sync": sync}, None, None, None)
+            return Trace(("create_checkpoint", ""), it.events, "return", v, pc=it.pc)
+        except _Raise as r:
+            return Trace(("create_checkpoint", ""), it.events, "raise", r.exc, r.origin, r.site, pc=it.pc)
+
+    return enumerate_paths(run)
